@@ -26,6 +26,7 @@ type lcall struct {
 	fl    map[string][]float64
 	ld    map[string]int
 	iv    map[string][]int
+	bv    map[string][]bool
 	inc   int
 	lwork int
 }
@@ -75,6 +76,21 @@ func (c *lcall) sort2(i int) lapack.Sort {
 	return flagByte(c.f[i], []lapack.Sort{lapack.SortIncreasing, lapack.SortDecreasing}, c.salt+i)
 }
 func (c *lcall) boolean(i int) bool { return c.f[i] == 1 }
+func (c *lcall) gsvdjob(i int, compute lapack.GSVDJob) lapack.GSVDJob {
+	return flagByte(c.f[i], []lapack.GSVDJob{compute, lapack.GSVDNone}, c.salt+i)
+}
+func (c *lcall) schurjob(i int) lapack.SchurJob {
+	return flagByte(c.f[i], []lapack.SchurJob{lapack.EigenvaluesOnly, lapack.EigenvaluesAndSchur}, c.salt+i)
+}
+func (c *lcall) schurcomp(i int) lapack.SchurComp {
+	return flagByte(c.f[i], []lapack.SchurComp{lapack.SchurNone, lapack.SchurHess, lapack.SchurOrig}, c.salt+i)
+}
+func (c *lcall) evside(i int) lapack.EVSide {
+	return flagByte(c.f[i], []lapack.EVSide{lapack.EVRight, lapack.EVLeft, lapack.EVBoth}, c.salt+i)
+}
+func (c *lcall) evhowmany(i int) lapack.EVHowMany {
+	return flagByte(c.f[i], []lapack.EVHowMany{lapack.EVAll, lapack.EVAllMulQ, lapack.EVSelected}, c.salt+i)
+}
 
 // ltab passes the fields of a call to gonum in the argument order of the API. No arithmetic.
 var ltab = map[string]func(c *lcall){
@@ -240,6 +256,33 @@ var ltab = map[string]func(c *lcall){
 	},
 	"Dsterf": func(c *lcall) { limpl.Dsterf(c.d[0], c.fl["d"], c.fl["e"]) },
 	"Dlarfg": func(c *lcall) { limpl.Dlarfg(c.d[0], 3, c.fl["x"], c.inc) },
+	// routines of the workspace-query grid only (LapackQuery.tla)
+	"Dggsvp3": func(c *lcall) {
+		limpl.Dggsvp3(c.gsvdjob(0, lapack.GSVDU), c.gsvdjob(1, lapack.GSVDV), c.gsvdjob(2, lapack.GSVDQ), c.d[0], c.d[1], c.d[2],
+			c.fl["a"], c.ld["a"], c.fl["b"], c.ld["b"], 1e-8, 1e-8, c.fl["u"], c.ld["u"], c.fl["v"], c.ld["v"], c.fl["q"], c.ld["q"],
+			c.iv["iwork"], c.fl["tau"], c.fl["work"], c.lwork)
+	},
+	"Dggsvd3": func(c *lcall) {
+		limpl.Dggsvd3(c.gsvdjob(0, lapack.GSVDU), c.gsvdjob(1, lapack.GSVDV), c.gsvdjob(2, lapack.GSVDQ), c.d[0], c.d[1], c.d[2],
+			c.fl["a"], c.ld["a"], c.fl["b"], c.ld["b"], c.fl["alpha"], c.fl["beta"], c.fl["u"], c.ld["u"], c.fl["v"], c.ld["v"],
+			c.fl["q"], c.ld["q"], c.fl["work"], c.lwork, c.iv["iwork"])
+	},
+	"Dhseqr": func(c *lcall) {
+		limpl.Dhseqr(c.schurjob(0), c.schurcomp(1), c.d[0], c.d[1], c.d[2], c.fl["h"], c.ld["h"], c.fl["wr"], c.fl["wi"],
+			c.fl["z"], c.ld["z"], c.fl["work"], c.lwork)
+	},
+	"Dlaqr04": func(c *lcall) {
+		limpl.Dlaqr04(c.boolean(0), c.boolean(1), c.d[0], c.d[1], c.d[2], c.fl["h"], c.ld["h"], c.fl["wr"], c.fl["wi"],
+			c.d[3], c.d[4], c.fl["z"], c.ld["z"], c.fl["work"], c.lwork, 1)
+	},
+	"Dlaqr23": func(c *lcall) {
+		limpl.Dlaqr23(c.boolean(0), c.boolean(1), c.d[0], c.d[1], c.d[2], c.d[3], c.fl["h"], c.ld["h"], c.d[4], c.d[5], c.fl["z"], c.ld["z"],
+			c.fl["sr"], c.fl["si"], c.fl["v"], c.ld["v"], c.d[6], c.fl["t"], c.ld["t"], c.d[7], c.fl["wv"], c.ld["wv"], c.fl["work"], c.lwork, c.f[2])
+	},
+	"Dtrevc3": func(c *lcall) {
+		limpl.Dtrevc3(c.evside(0), c.evhowmany(1), c.bv["selected"], c.d[0], c.fl["t"], c.ld["t"], c.fl["vl"], c.ld["vl"],
+			c.fl["vr"], c.ld["vr"], c.d[1], c.fl["work"], c.lwork)
+	},
 }
 
 // named is a [name, len] or [name, len, ld] triple printed by the specification.
